@@ -272,5 +272,69 @@ def hash_obligations():
     return o
 
 
+B64 = dict(contracts=['b64.h'], unwind=34)
+
+
+def b64_obligations():
+    o = []
+    bound_dec = 'decoder explored for inputs of 0, 4, 8 and 24 symbols (24 is the only length the program decodes)'
+    bound = 'codec loops unwound for inputs of at most 24 bytes / 32 symbols (covers every length the program itself uses: 16 <-> 24)'
+    o.append(Ob('b64_group_lemma', ['C16'], timeout=300, **B64, harness='''
+void h_b64_group_lemma(void)
+{
+  unsigned char in[3], out[4];
+  int rem;
+  __CPROVER_assume(rem >= 1 && rem <= 3);
+  for (int j = 0; j < 4; ++j)
+    out[j] = spec_b64_enc_char(in, rem, j);
+  /* decoding the encoded group gives the bytes back (all 2^24 groups, all three tail shapes) */
+  for (int j = 0; j < 3; ++j)
+    if (j < rem)
+      __CPROVER_assert(spec_b64_dec_byte(out, j) == in[j], "[C16] RFC 4648 group decode inverts group encode");
+  unsigned v;
+  __CPROVER_assume(v < 64);
+  __CPROVER_assert(hex_tab[b64_tab[v]] == v && spec_b64_char(v) == b64_tab[v], "[C16] encode table is the RFC 4648 alphabet and the decode table inverts it");
+  unsigned char c;
+  __CPROVER_assume(c < 128);
+  __CPROVER_assert((hex_tab[c] == 255) == (spec_b64_index(c) < 0) && (spec_b64_index(c) >= 0 ==> hex_tab[c] == spec_b64_index(c)), "[C16] decode table marks exactly the non-alphabet characters");
+  __CPROVER_assert(0, "WV_CANARY");
+}''', note='complete: all 2^24 input groups, all 64 alphabet indices, all 128 table entries'))
+    o.append(Ob('b64_encode', ['C16'], enforce='hex_to_base64', timeout=900, bounded=bound, **B64))
+    o.append(Ob('b64_decode', ['C16'], enforce='base64_to_hex', timeout=900, bounded=bound_dec, contracts=['b64.h'], unwind=26, tier='thorough',
+                note='measured: CBMC runs out of 12 GB during propositional reduction for the contract-instrumented decoder; kept in the thorough tier only'))
+    # the decoder on the one input shape the program uses (24 symbols, an accepted key string), as a plain harness over the
+    # real function: every accepted key string, output compared with the RFC 4648 group function, bounds of the 16-byte buffer
+    o.append(Ob('b64_decode_key', ['C16', 'C17'], timeout=600, unwind=26, contracts=['b64.h'], harness='''
+void h_b64_decode_key(void)
+{
+  u8_t in[24], out[16];
+  __CPROVER_assume(spec_b64_is_key_string(in));
+  unsigned g, j;
+  __CPROVER_assume(g < 6 && j < 3 && 3 * g + j < 16);
+#pragma CPROVER check pop
+  bool r = base64_to_hex(in, 24, out);
+#pragma CPROVER check push
+#pragma CPROVER check disable "bounds"
+#pragma CPROVER check disable "pointer"
+  __CPROVER_assert(r, "[C16] decoding an accepted key string succeeds");
+  __CPROVER_assert(out[3 * g + j] == spec_b64_dec_byte(in + 4 * g, j), "[C16] an accepted key string decodes to the RFC 4648 value of its groups, inside the 16-byte buffer");
+  __CPROVER_assert(0, "WV_CANARY");
+}''', note='complete for this input shape: all accepted 24-symbol key strings; the automatic bounds checks of the real decoder body are on'))
+    o.append(Ob('b64_validator', ['C16', 'C17'], enforce='is_valid_b64', timeout=300, **B64,
+                note='complete: every 24-byte string and every int length; result == (len == 24 and the string is the encoding of a 16-byte value)'))
+    o.append(Ob('b64_validator_other_lengths', ['C16', 'C17'], **B64, harness='''
+void h_b64_validator_other_lengths(void)
+{
+  int len;
+  __CPROVER_assume(len != 24);
+  /* no readable memory at all: the validator must decide on the length alone */
+  __CPROVER_assert(!is_valid_b64((const u8_t *)0, len), "[C16] strings whose length is not 24 are rejected without being read");
+  __CPROVER_assert(0, "WV_CANARY");
+}'''))
+    o.append(Ob('b64_getArgsKey', ['C16', 'C17'], enforce='getArgsKey', replace=['base64_to_hex'], **B64,
+                note='an accepted key string decodes to exactly 16 bytes inside the 16-byte key buffer'))
+    return o
+
+
 def all_obligations():
-    return aes_obligations() + mode_obligations() + hash_obligations()
+    return aes_obligations() + mode_obligations() + hash_obligations() + b64_obligations()
